@@ -132,6 +132,11 @@ static void dump_b(FILE *o, coap_pdu_t *pdu) {
   show_bytes(o, pdu->token, pdu->used_size);
   /* regime 2: the PDU belongs to a session and its header has been written; coap_update_token then
    * has to keep the header in step with the token length - show the header as it is in memory */
+  /* what the model takes for granted about the allocation: the used bytes lie inside it, and it
+   * never exceeds max_size */
+  if (pdu->used_size > pdu->alloc_size || (pdu->max_size && pdu->alloc_size > pdu->max_size))
+    fprintf(o, " ALLOC-INVARIANT-BROKEN(used=%zu alloc=%zu max=%zu)", pdu->used_size,
+            pdu->alloc_size, pdu->max_size);
   fputs(" h=", o);
   if (g_amode == 2 && pdu->hdr_size) show_bytes(o, pdu->token - pdu->hdr_size, pdu->hdr_size);
   else fputc('-', o);
